@@ -14,9 +14,10 @@ func Run(c *vh.Ctx) {
 	chkfam.Run(c, chkfam.Config{
 		Stream: "c02", NQuick: 300, NThorough: 5000,
 		Profile: func(r *rand.Rand) scen.Profile {
+			faults := r.Intn(2) * 6 // half of the runs: API errors, lost responses and crashes at upcoming writes, more deletions of revisions
 			return scen.Profile{
 				Steps: 50 + r.Intn(60), Cluster: r.Intn(4) == 0, Hosted: r.Intn(3) == 0, Delegated: []float64{0, 0, 0.3}[r.Intn(3)], MaxRevisions: 2 + r.Intn(3),
-				Weights: scen.WeightsWith(map[string]int{"user-next-revision": 8, "reconcile": 40, "adv-delete": 3, "adv-edit": 3, "adv-create": 0, "adv-reown": 0, "adv-relabel": 0, "adv-recreate": 0, "user-archive": 3, "user-pause": 3, "user-delete": 2}),
+				Weights: scen.WeightsWith(map[string]int{"user-next-revision": 8, "reconcile": 40, "adv-delete": 3, "adv-edit": 3, "adv-create": 0, "adv-reown": 0, "adv-relabel": 0, "adv-recreate": 0, "user-archive": 3, "user-pause": 3, "user-delete": 2 + faults/2, "fault": faults, "restart": faults / 6}),
 				CPs:     []string{"", "", "Prevent", "IfNoController", "None", "None"},
 			}
 		},
